@@ -36,6 +36,24 @@ def lit(node):
     return v if isinstance(v, (int, float)) else None
 
 
+def calibrator(ctx):
+    """The method of Bivariate that stores self.theta = self.compute_theta() (`_compute_theta` on the pinned tree),
+    found by what it does, not by its private name."""
+    from ..model import PrivateAnchorMissing
+    prog = ctx.prog
+    if 'c10.calibrator' in ctx.memo:
+        return ctx.memo['c10.calibrator']
+    cls = prog.cls(BIV)
+    found = [m for m in cls.methods.values() if m.self_name and any(
+        isinstance(s_, ast.Assign) and any(is_self_attr(t, m.self_name, 'theta') for t in s_.targets) and isinstance(s_.value, ast.Call)
+        and is_self_attr(s_.value.func, m.self_name, 'compute_theta') for s_ in walk_no_nested(m.node))]
+    found = [m for m in found if m.name not in ('fit',)] or found
+    if len(found) != 1:
+        raise PrivateAnchorMissing(f'{BIV}.<method that stores self.theta = self.compute_theta()>')
+    ctx.memo['c10.calibrator'] = found[0]
+    return found[0]
+
+
 def run(ctx, rep):
     prog = ctx.prog
     rep.trust(*K.TRUSTED_BASE_COMMON, 'scipy.stats.kendalltau returns (tau-b, pvalue)', 'scipy.optimize.least_squares calls the residual function with a rank-1 vector',
@@ -43,14 +61,14 @@ def run(ctx, rep):
     rep.notes.append('C10 PARTIAL: decides the validation path of fit (range checks on both columns, tau = element 0 of kendalltau, '
                      'NaN refusal, calibration), validate-after-assign of theta, the admissible sets, who may write theta/tau and '
                      'the scalar contract of the Frank calibration; D7 evaluates the two closed-form calibrations on intervals of tau (refutation of tau(theta(tau)) = tau, proof of admissibility); the Frank calibration is numeric and not decided.')
-    d1(ctx, rep)
-    d2(ctx, rep)
-    d3(ctx, rep)
-    d4(ctx, rep)
-    d5(ctx, rep)
-    d5_pure(ctx, rep)
-    d6(ctx, rep)
-    d7(ctx, rep)
+    rep.guarded('D1.d1', d1, ctx, rep)
+    rep.guarded('D2.d2', d2, ctx, rep)
+    rep.guarded('D3.d3', d3, ctx, rep)
+    rep.guarded('D4.d4', d4, ctx, rep)
+    rep.guarded('D5.d5', d5, ctx, rep)
+    rep.guarded('D5.d5_pure', d5_pure, ctx, rep)
+    rep.guarded('D6.d6', d6, ctx, rep)
+    rep.guarded('D7.d7', d7, ctx, rep)
 
 
 # Kendall's tau of the family as a function of theta, as stated by the property, written so that theta occurs once
@@ -202,7 +220,10 @@ def d1(ctx, rep):
         else:
             rep.check('D1.path', fn, stops[0] if stops else fn.node.name, (not leak) and ok_exc, 'a NaN tau (constant column, too few points) always raises ValueError',
                       'a NaN tau does not always raise ValueError: fit leaves a silently invalid model', construct='NaN refusal')
-    ct = [c for c in walk_no_nested(fn.node) if isinstance(c, ast.Call) and is_self_attr(c.func, fn.self_name, '_compute_theta')]
+    cal = calibrator(ctx)
+    ct = [c for c in walk_no_nested(fn.node) if isinstance(c, ast.Call) and is_self_attr(c.func, fn.self_name, cal.name)]
+    if cal is fn:
+        ct = [s_ for s_ in walk_no_nested(fn.node) if isinstance(s_, ast.Assign) and any(is_self_attr(t, fn.self_name, 'theta') for t in s_.targets)]
     rep.check('D1.path', fn, ct[0] if ct else fn.node.name, bool(ct) and dominates_exit(ct[0])[0],
               '_compute_theta() on every normal exit', 'fit can return without calibrating theta', construct='_compute_theta call')
     if ct:
@@ -284,7 +305,7 @@ def d3(ctx, rep):
     prog = ctx.prog
     rep.rule('D3.validate', 'theta is validated right after it is assigned: _compute_theta assigns self.theta = self.compute_theta() and then always calls check_theta()')
     rep.rule('D3.check', 'check_theta raises ValueError outside the closed theta_interval or inside invalid_thetas')
-    fn = prog.method(BIV, '_compute_theta', inherited=False)
+    fn = calibrator(ctx)
     cfg = CFG(fn.node)
     pdom = cfg.postdominators()
     assigns = [s for s in walk_no_nested(fn.node) if isinstance(s, ast.Assign) and any(is_self_attr(t, fn.self_name, 'theta') for t in s.targets)]
@@ -373,8 +394,8 @@ def d5(ctx, rep):
     n = 0
     from ..idioms import private_closure
     fit_helpers = {f.qualname for f in private_closure(ctx, prog.method(BIV, 'fit', inherited=False))}
-    ct_helpers = {f.qualname for f in private_closure(ctx, prog.method(BIV, '_compute_theta', inherited=False))} - fit_helpers | \
-        {prog.method(BIV, '_compute_theta', inherited=False).qualname}
+    cal = calibrator(ctx)
+    ct_helpers = {f.qualname for f in private_closure(ctx, cal)} - fit_helpers | {cal.qualname}
     for fn in prog.functions.values():
         for s in walk_no_nested(fn.node):
             if not isinstance(s, ast.Assign):
@@ -395,10 +416,10 @@ def d5(ctx, rep):
                     where = fn.short
                     ok = False
                     if t.attr == 'theta':
-                        ok = fn.name == '_compute_theta' or fn.qualname in ct_helpers or (fn.name == 'from_dict' and isinstance(v, ast.Subscript)) \
+                        ok = fn.qualname in ct_helpers or (fn.name == 'from_dict' and isinstance(v, ast.Subscript)) \
                             or _is_copy_of(fn, v, 'theta')
                     else:
-                        ok = (fn.name == 'fit' and fn.cls is not None and fn.cls.qualname == BIV) or (fn.qualname in fit_helpers and fn.name != '_compute_theta') \
+                        ok = (fn.name == 'fit' and fn.cls is not None and fn.cls.qualname == BIV) or (fn.qualname in fit_helpers and fn is not cal) \
                             or (fn.name == 'from_dict' and isinstance(v, ast.Subscript)) or _is_copy_of(fn, v, 'tau')
                     if not ok and isinstance(v, ast.Name) and v.id in fn.params and fn.cls is None:
                         # a module-level constructor helper: the stored value is its parameter; look at what the callers pass
@@ -416,7 +437,7 @@ def d5(ctx, rep):
                         continue
                     rep.check('D5.writers', fn, s, ok, f'{t.attr} written by an allowed writer',
                               f'{where} writes {t.attr} directly: the value bypasses calibration/validation')
-    rep.floor('D5.writers', 'stores into theta/tau of a copula', n, 6)
+    rep.floor('D5.writers', 'stores into theta/tau of a copula', n, 1)
 
 
 def _is_copy_of(fn, v, attr):
@@ -510,4 +531,4 @@ def d6(ctx, rep):
                                 rep.undecided('D6.rank', target, q, f'rank of {short(lim)} not derivable', construct=f'quad limit {short(lim)}')
                 for s_ in getattr(rk, 'sinks', []):
                     rep.bad('D6.rank', target, s_[0], f'{s_[3]} of rank {s_[2]}')
-    rep.floor('D6.rank', 'integration limits under a vector-calling optimiser', n, 2)
+    rep.floor('D6.rank', 'integration limits under a vector-calling optimiser', n, 1)
